@@ -53,6 +53,7 @@ pub fn check_cmd(args: &[String]) -> i32 {
         "C02" => c02(&a),
         "C03" => c03(&a),
         "C04" => c04(&a),
+        "C06" => c06(&a),
         "C07" => c07(&a),
         "C08" => c08(&a),
         "C10" => c10(&a),
@@ -1045,6 +1046,73 @@ fn c11(a: &Args) -> Report {
         wall_s: 0.0,
         violations,
         known: vec![],
+        machinery_errors: machinery,
+    }
+}
+
+fn c06(a: &Args) -> Report {
+    use crate::engines::crash::{self, CrashSpec};
+    let thorough = a.tier == "thorough";
+    let mut specs = Vec::new();
+    for (name, h, max_data) in io_histories(if thorough { 3 } else { 2 }) {
+        // the orderly variants only: an explicit try_close needs an active blob
+        let modes: &[IoMode] = if thorough || name.starts_with("seed") { &[IoMode::Inplace, IoMode::Background] } else { &[IoMode::Inplace] };
+        for mode in modes {
+            let mut s = CrashSpec::new(&format!("C06/{name}/{mode:?}"), *mode, h.clone());
+            s.wcfg.max_data_in_blob = max_data;
+            s.fine_limit = if thorough { 8192 } else { 700 };
+            specs.push(s);
+        }
+    }
+    let r = crash::run(&specs, a.threads, if thorough { 40_000 } else { 1_500 });
+    let mut violations = Vec::new();
+    let mut machinery = Vec::new();
+    let known = known_file();
+    let mut known_hits: Vec<(String, String)> = Vec::new();
+    for v in &r.violations {
+        if v.findings.iter().any(|f| f.kind == "machinery") {
+            machinery.push(format!("{}: {:?}", v.spec.name, v.findings));
+            continue;
+        }
+        if v.findings.iter().all(|f| f.kind == "torn_header_version_zero") && evidence::is_open(&known, "C06", "torn-header-version-zero") {
+            if known_hits.is_empty() {
+                known_hits.push((
+                    "torn-header-version-zero".into(),
+                    format!("power loss tears a new blob's header so that the version field reads 0: init fails with BlobVersion instead of quarantining ({}, {})", v.spec.name, v.state),
+                ));
+            }
+            continue;
+        }
+        let desc = format!("[{}] {} ; recovery with {} :: {}", v.spec.name, v.state, v.config, v.findings[0].detail);
+        violations.push((json!({"engine": "crash", "spec": v.spec, "crash_after_event": v.crash_after_event, "state": v.state, "config": v.config, "findings": v.findings}), desc));
+    }
+    violations.truncate(24);
+    Report {
+        property: "C06".into(),
+        tier: a.tier.clone(),
+        seed: a.seed,
+        level: "fault_enumeration".into(),
+        coverage: json!({
+            "evaluations": r.stats.recoveries,
+            "distinct_nontrivial": r.stats.distinct_states,
+            "rule": "per history: the ordered log of create/write/sync/truncate/rename events is recorded from the real code; crash after every event; kill = all issued bytes present (large in-flight writes also cut at 4 KiB boundaries); power loss = per file, un-synced bytes lost from every enumerated byte on (every byte for regions up to fine_limit, both ends of every write and page boundaries beyond), tail absent or zero-filled, un-synced writes dropped as subsets, index-header rewrite applied or not, other files all-present or durable-only; each distinct state recovered with init under validate_data on/off x ignore_corrupted on/off; distinct_nontrivial = distinct crash states",
+            "samples": r.stats.samples,
+            "exhaustive": true,
+            "histories": r.stats.histories,
+            "log_events": r.stats.log_events,
+            "crash_points": r.stats.crash_points,
+            "kill_states": r.stats.kill_states,
+            "power_loss_states": r.stats.power_loss_states,
+            "violations_total": r.stats.violations,
+            "violations_by_kind": r.stats.violations_by_kind,
+        }),
+        assumptions: vec![
+            "file existence and renames are durable; un-synced data is volatile; a kill between two file operations is indistinguishable on disk from a kill right after the earlier one".into(),
+            "the log is recorded under the default schedule (background dumps run to quiescence after each operation)".into(),
+        ],
+        wall_s: 0.0,
+        violations,
+        known: known_hits,
         machinery_errors: machinery,
     }
 }
